@@ -107,9 +107,9 @@ def one(rec, t, ti, name, obj, j, rng):
     case = {"tree": ti, "class": name, "value": obj.to_json()}
     rec.case((ti, name, repr(obj), "constructed"), nontrivial=bool(obj.fields))
     handles = []
-    form = j % 4
+    form = j % 5
     try:
-        inst = br.build(obj, array_form=form, handles=handles if form in (0, 3) else None)
+        inst = br.build(obj, array_form=form, handles=handles if form in (0, 3, 4) else None)
     except Exception as e:
         rec.count("constructor-raised")
         return
@@ -120,7 +120,7 @@ def one(rec, t, ti, name, obj, j, rng):
             v = getattr(inst, pname)
             if not isinstance(v, tuple):
                 case["xml"] = t.files
-                rec.violation("array-not-tuple", "tree %d %s.%s is %s, not tuple (built from %s)" % (ti, name, pname, type(v).__name__, ["list", "tuple", "generator", "list-or-bytearray"][form]), case)
+                rec.violation("array-not-tuple", "tree %d %s.%s is %s, not tuple (built from %s)" % (ti, name, pname, type(v).__name__, ["list", "tuple", "generator", "list-or-bytearray", "read-only-view"][form]), case)
     def snapshot(x):
         out = [repr(x), getattr(x, "byte_size", None)]
         for pn, _ins in br.params(obj.cls):
@@ -287,4 +287,4 @@ def one(rec, t, ti, name, obj, j, rng):
             case["xml"] = t.files
             rec.violation("serialization-not-repeatable", "tree %d %s (deserialized): %r vs %r" % (ti, name, d1, d2), case)
     if rec.evals % 300 == 1:
-        rec.sample({"tree": ti, "class": name, "value": obj.to_json(), "built_from": ["list", "tuple", "generator", "list-or-bytearray"][form]})
+        rec.sample({"tree": ti, "class": name, "value": obj.to_json(), "built_from": ["list", "tuple", "generator", "list-or-bytearray", "read-only-view"][form]})
